@@ -35,7 +35,11 @@ func (b *sBus) Publish(m event.Message) { b.msgs = append(b.msgs, m) }
 func vFieldValueBytes(val client.FieldValue) ([]byte, error) {
 	switch v := val.Value().(type) {
 	case string:
-		return append([]byte{'s', byte(len(v))}, []byte(v)...), nil
+		// (what canonical CBOR produces for a text string shorter than 24 bytes)
+		if len(v) >= 24 {
+			panic("vFieldValueBytes: short strings only")
+		}
+		return append([]byte{0x60 + byte(len(v))}, []byte(v)...), nil
 	case nil:
 		return append([]byte{}, client.CborNil...), nil
 	}
